@@ -7,7 +7,9 @@ import (
 	"fmt"
 	"go/types"
 	"sort"
+	"strconv"
 	"strings"
+	"time"
 
 	"gosx/smt"
 )
@@ -64,6 +66,7 @@ type pathState struct {
 	known    map[int]bool // atoms (term ids) decided on this path
 	uf       map[string]*smt.Term // uninterpreted environment results on this path
 	usedUF   bool
+	pools    map[*value][]value // sync.Pool contents on this path
 	syncMaps map[*value]*smap
 	// violation found mid-path (assert); path stops at first
 }
@@ -116,6 +119,12 @@ func (i *interpreter) decide(cond *smt.Term, why string) bool {
 		return d == 1
 	}
 	i.stats.Decisions++
+	if ps.unknowns > maxUnknownsPerPath {
+		panic(abortPath{"inconclusive", "the solver answered unknown more than " + strconv.Itoa(maxUnknownsPerPath) + " times on this path"})
+	}
+	if !i.deadline.IsZero() && time.Now().After(i.deadline.Add(30*time.Second)) {
+		panic(abortPath{"budget", "harness deadline reached inside a path"})
+	}
 	rt := i.sol.CheckWith(cond)
 	var rf smt.Result
 	if rt == smt.Unsat {
@@ -303,6 +312,10 @@ func (i *interpreter) assume(cond value) {
 		panic(engineFault(fmt.Sprintf("vAssume on %T", cond)))
 	}
 }
+
+// maxUnknownsPerPath: a path on which the solver keeps timing out is given up
+// (inconclusive) instead of paying the time limit at every further branch.
+const maxUnknownsPerPath = 8
 
 func traceKey(t []int32) string {
 	var sb strings.Builder
